@@ -67,6 +67,10 @@ CHECKS["C19"]=dict(level="exploration", ref="§C19",
    technique="finite product enumeration of sample rates x machines x toggle times (every T of the frame) x volumes, and all 2^6 drain schedules",
    text="For ten sample rates from 8000 to 384000 Hz on both machines a speaker toggle is executed by the emulated CPU at every T of the frame in thorough (three 256-T windows in quick): the drained frame must hold floor(rate/50) samples (by emulated time), every sample outside the one-sample edge window must equal the level set before/after the write, the edge must land within one sample of the OUT, all samples finite and bounded by the volume; MIC bit, volumes 0/1/200 and double toggles on sparser time sets; all 64 drain/no-drain patterns over six frames x rates x machines x AY on/off keep the queue below two frames' worth.",
    note="Exploration level: one or two toggles per frame, not arbitrary programs. Beeper-only configuration for the edge test. Frame clock placed through the hook.")
+CHECKS["C13"]=dict(level="exploration", ref="§C13",
+   technique="finite product enumeration of save states x receiving states on the real save/load path, with a lock-step continuation against a pristine twin",
+   text="Save states (two register patterns with all register bytes distinct, IM, IFF2, border, R and I boundary values, all 256 paging values on the 128K in thorough reached by CPU-executed OUTs, seven SP placements on the 48K incl. the ROM edge) are saved through save_snapshot and loaded into nine receivers (same machine now/1/1000 instructions later, fresh, halted, mid DD prefix, right after EI, paging locked elsewhere, everything different); registers, border, paging latch, lock and map, and every RAM bank are compared, then 24 instructions of an observer program run in lock step against a pristine twin; registers and all RAM of the saving machine are compared before/after the save.",
+   note="Exploration level: RAM contents are position codes, register values two patterns plus boundary values. Not judged: IFF1, MEMPTR/Q, 48K PC with ROM below SP.")
 NOT_YET = {
 }
 def main():
